@@ -86,11 +86,23 @@ Theorem C14_reconnect_restores : forall (ops : list op) (c : cid),
 Proof. exact reconnect_restores. Qed.
 Print Assumptions C14_reconnect_restores.
 
-(** splitTopic (the Go loop) = well-formedness test + split at '/' *)
+(** splitTopic (the Go loop) = well-formedness test + split at '/', for strings of ANY
+    length: [wf_filter] only looks at the placement of '+' and '#' *)
 Theorem C14_split_topic_spec : forall s : string,
   split_topic s = if wf_filter s then Some (split_slash s) else None.
 Proof. exact split_topic_spec. Qed.
 Print Assumptions C14_split_topic_spec.
+
+(** ... so length alone never makes a filter or topic name malformed; the 65535-byte
+    maximum of the MQTT two-byte length prefix is accepted (closed instances by vm_compute) *)
+Theorem C14_length_never_malformed :
+  (forall s, wf_filter s = true -> split_topic s = Some (split_slash s)) /\
+  (forall T, has_wild T = false -> split_topic T = Some (split_slash T)) /\
+  accepts_as (srep "x" 65535) [srep "x" 65535] = true /\
+  accepts_as (sx [("dev/", 1%N); ("x", 65525%N); ("/state", 1%N)]) ["dev"; srep "x" 65525; "state"] = true /\
+  accepts_as (srep "/" 65535) (repeat "" (N.to_nat 65536)) = true.
+Proof. exact length_never_malformed. Qed.
+Print Assumptions C14_length_never_malformed.
 
 Theorem C14_matches_dec_correct : forall fs ts : list level,
   matchesb fs ts = true <-> matches fs ts.
